@@ -35,6 +35,35 @@ Theorem C06_conn_fatal_releases_lock : forall s t s',
 Proof. exact fatal_releases_lock. Qed.
 Print Assumptions C06_conn_fatal_releases_lock.
 
+(* The read lock handed to a Batch.  [holder_phase]: only a call that is peeking, reading its
+   response or holding a Batch can hold rlock — in every reachable state. *)
+Theorem C06_lock_held_only_by_reader : forall ls s t, run init ls = Some s ->
+  rlock s = Some t -> holder_phase (ph (thr s t)) = true.
+Proof. intros ls s t H. exact (LockInv_run ls s H t). Qed.
+Print Assumptions C06_lock_held_only_by_reader.
+
+(* Batch.Close releases the lock, the Batch's call no longer is a lock holder, and the
+   connection is left either closed or exactly at the frame boundary it was at (no new
+   misalignment) — for every outcome of discarding the rest of the fetch response except the
+   one that stands for C11's hypothesis (a Kafka error returned with bytes left).
+   Implementation side: harness op batchrd, byte accounting monitor mon_batch_acct. *)
+Theorem C06_batch_close_at_boundary_or_closed : forall s t r s',
+  step s (BatchClose t r) = Some s' -> r <> RKafkaLeft ->
+  rlock s' = None /\ (closed s' = true \/ misaligned s' = misaligned s) /\
+  holder_phase (ph (thr s' t)) = false.
+Proof. exact batch_close_at_boundary_or_closed. Qed.
+Print Assumptions C06_batch_close_at_boundary_or_closed.
+
+(* Close on a closed Batch changes nothing (batch.conn / batch.lock were reset), the closing step
+   itself is enabled only once, and in every reachable state a call that holds no Batch (any
+   more) does not hold the lock: the lock is released at most once per Batch. *)
+Theorem C06_batch_close_idempotent :
+  (forall s t s', step s (BatchCloseAgain t) = Some s' -> s' = s) /\
+  (forall s t r s' r', step s (BatchClose t r) = Some s' -> step s' (BatchClose t r') = None) /\
+  (forall ls s t, run init ls = Some s -> holder_phase (ph (thr s t)) = false -> rlock s <> Some t).
+Proof. exact (conj batch_close_idempotent (conj batch_close_once closed_batch_holds_no_lock)). Qed.
+Print Assumptions C06_batch_close_idempotent.
+
 (* The same without any bound on the number of requests the connection carries: it is enough
    that, in every state the run visits, any two OUTSTANDING requests (waiting for their answer,
    or answered and not yet consumed) are fewer than 2^32 sends apart.  (A bound on the NUMBER of
@@ -167,6 +196,18 @@ Example conn_nonvacuous :
                   LockR 1; PeekOwn 1; ReadDone 1 RKafka]%nat with
   | Some s => (negb (misaligned s) && (nsend s <? ID_BOUND) && all_own s [1; 2]%nat &&
                Nat.eqb (outcome_code (ph (thr s 1%nat))) 2 && Nat.eqb (outcome_code (ph (thr s 2%nat))) 1)%bool
+  | None => false
+  end = true.
+Proof. vm_compute. reflexivity. Qed.
+
+(* a Batch: read some, a short buffer, Close, Close again; a waiter is then served *)
+Example batch_nonvacuous :
+  match run init [Enter 1 KBatch; Enter 2 KDo; LockW 1; Send 1 true true; LockW 2; Send 2 true true;
+                  Arrive 1; Arrive 2; LockR 1; PeekOwn 1; BatchOpen 1; BatchRead 1; BatchShort 1;
+                  BatchClose 1 ROk; BatchCloseAgain 1; LockR 2; PeekOwn 2; BatchCloseAgain 1;
+                  ReadDone 2 ROk]%nat with
+  | Some s => (negb (misaligned s) && negb (closed s) && all_own s [1; 2]%nat &&
+               Nat.eqb (outcome_code (ph (thr s 1%nat))) 1 && Nat.eqb (outcome_code (ph (thr s 2%nat))) 1)%bool
   | None => false
   end = true.
 Proof. vm_compute. reflexivity. Qed.
